@@ -478,7 +478,50 @@ func runC01(c *Ctx) {
 			}
 		}
 	}
+	// the flag may be computed by a predicate of its own: live := taskIsLive(t)
+	var liveVal ssa.Value
+	if livePhi != nil {
+		liveVal = livePhi
+	}
+	helperSets := false
+	var hLive, hDead uint32
 	if livePhi == nil {
+		for _, b := range al.Blocks {
+			for _, in := range b.Instrs {
+				cc, ok := in.(*ssa.Call)
+				if !ok || liveVal != nil {
+					continue
+				}
+				h := cc.Call.StaticCallee()
+				if h == nil || h.Pkg != al.Pkg || len(h.Blocks) == 0 || len(h.Params) != 1 || !isBoolType(cc.Type()) || len(CallSites(h, ts.eff)) == 0 {
+					continue
+				}
+				c.touch(h)
+				edges := ts.EdgeStates(h, TaskKey(h.Params[0]), ts.All)
+				okShape := true
+				for _, r := range ReturnsOf(h) {
+					v, isC := ConstBool(r.Results[0])
+					if !isC {
+						okShape = false
+						continue
+					}
+					var st uint32
+					for _, pb := range r.Block().Preds {
+						st |= edges[[2]*ssa.BasicBlock{pb, r.Block()}]
+					}
+					if v {
+						hLive |= st
+					} else {
+						hDead |= st
+					}
+				}
+				if okShape {
+					liveVal, helperSets = cc, true
+				}
+			}
+		}
+	}
+	if liveVal == nil {
 		c.Undecided("overlord/state.(*Change).abortLanes#live-flag", al.Pos(), "the live flag (boolean phi of constants) was not recognised")
 	} else {
 		// status sets on the incoming edges
@@ -486,7 +529,11 @@ func runC01(c *Ctx) {
 		for _, ec := range CallSites(al, ts.eff) {
 			tkey = TaskKey(ec.Common().Args[0])
 		}
-		if tkey == nil {
+		if helperSets {
+			want := ts.Bit("Do") | ts.Bit("Doing") | ts.Bit("Done")
+			c.Check(hLive == want, "overlord/state.(*Change).abortLanes#live-statuses", liveVal.Pos(), "live = effective status in "+ts.SetString(hLive), fmt.Sprintf("a task is considered live in effective statuses %s; the healthy-lane exemption is defined for exactly %s", ts.SetString(hLive), ts.SetString(want)))
+			c.Check(hDead == ts.All&^want, "overlord/state.(*Change).abortLanes#dead-statuses", liveVal.Pos(), "not live = every other status "+ts.SetString(hDead), fmt.Sprintf("a task is considered not live in %s; it must be every status but %s", ts.SetString(hDead), ts.SetString(want)))
+		} else if tkey == nil {
 			c.Undecided("overlord/state.(*Change).abortLanes#status-observer", al.Pos(), "no taskEffectiveStatus(t) call found")
 		} else {
 			edges := ts.EdgeStates(al, tkey, ts.All)
@@ -505,7 +552,7 @@ func runC01(c *Ctx) {
 			c.Check(deadSet == ts.All&^want, "overlord/state.(*Change).abortLanes#dead-statuses", livePhi.Pos(), "not live = every other status "+ts.SetString(deadSet), fmt.Sprintf("a task is considered not live in %s; it must be every status but %s", ts.SetString(deadSet), ts.SetString(want)))
 		}
 		// the two opinion maps: updated on the live / not-live edge of the test of the flag
-		liveAtom := Atom{Name: "live", Match: func(cd Cond) Pol { return cd.BoolIs(VIs(livePhi)) }}
+		liveAtom := Atom{Name: "live", Match: func(cd Cond) Pol { return cd.BoolIs(VIs(liveVal)) }}
 		var mapL, mapD ssa.Value
 		var updL, updD *ssa.MapUpdate
 		for _, b := range al.Blocks {
